@@ -120,6 +120,18 @@ impl Rng {
         v
     }
 
+    /// 0..n-1 random bytes
+    pub fn bytes_below(&mut self, n: usize) -> Vec<u8> {
+        let k = self.usize_below(n.max(1));
+        self.bytes(k)
+    }
+
+    /// 1..n random bytes
+    pub fn bytes_below1(&mut self, n: usize) -> Vec<u8> {
+        let k = 1 + self.usize_below(n.max(1));
+        self.bytes(k)
+    }
+
     pub fn fork(&mut self) -> Rng {
         Rng::new(self.next())
     }
